@@ -855,7 +855,7 @@ theorem dfAbsent_fold [DecidableEq V] {W : World V} {P : Parser V} (wf : WF W P)
     (hex : ∀ kf ∈ P.fields, excluded.contains kf.2.name = (given W kf.2 data && isExcluded W o kf.2 data))
     (l : List (Key × PField V)) (hl : ∀ kf ∈ l, kf ∈ P.fields) (st : St V) :
     l.foldl (fun st kf => if dhas kf.2.name s.inputs && !excluded.contains kf.2.name then st
-                          else absent {} o kf.2 st) st
+                          else absent {} W o kf.2 st) st
       = foldOut (outB W o data) ((l.filter fun kf => !(outOf W o data kf.2).provided).map (·.2)) st := by
   induction l generalizing st with
   | nil => rfl
@@ -868,7 +868,7 @@ theorem dfAbsent_fold [DecidableEq V] {W : World V} {P : Parser V} (wf : WF W P)
     rw [List.foldl_cons, hcond, List.filter_cons]
     cases hp : (outOf W o data kf.2).provided
     · simp only [Bool.false_eq_true, if_false, Bool.not_false, if_true, List.map_cons, foldOut_cons]
-      have hstep : absent {} o kf.2 st = applyOut kf.2 (outB W o data kf.2) st := by
+      have hstep : absent {} W o kf.2 st = applyOut kf.2 (outB W o data kf.2) st := by
         cases hx : isExcluded W o kf.2 data
         · have hg : given W kf.2 data = false := by
             unfold outOf at hp; rw [provided_eq, hx] at hp; simpa using hp
@@ -1055,7 +1055,7 @@ theorem dataFirst_equiv_ref [DecidableEq V] {W : World V} (LL : LowerLaws W) {P 
   let st2 := foldOut (outB W o data) absL r.st
   let stY := foldOut (outB W o data) absL stX
   let stF := foldOut (outOf W o data) (P.fields.map (·.2)) ({} : St V)
-  have hst2 : dfAbsentAll {} P o s.inputs r.excluded r.st = st2 := by unfold dfAbsentAll; rw [habs]
+  have hst2 : dfAbsentAll {} W P o s.inputs r.excluded r.st = st2 := by unfold dfAbsentAll; rw [habs]
   obtain ⟨hres2, hdeps2, hunp2⟩ := foldOut_core (outB W o data) absL r.st stX p1 p2 p3
   -- outA / outB against the contract
   have hA_ne : ∀ g, isExcluded W o g data = false → outA W o data g = outOf W o data g := by
